@@ -126,4 +126,56 @@ theorem mass_eq_spec_full_false_on_current_code :
     ≠ .ok (specMassT lib ⟨fun _ => default, fun _ => .ok []⟩ { seq := "PEPTIDE".toList } Mass.ionP 2 true 0 0
         (some ("+2Na+".toList.map Char.toNat))) := by decide +kernel
 
+
+/-- every key of `AVERAGE_ATOMIC_MASSES` is an element symbol present in `ISOTOPIC_ATOMIC_MASSES` (118 elements) -/
+theorem avg_keys_ok : Mass.avgKeysOk = true := by decide +kernel
+
+open Pept.Mass in
+/-- **mass with an explicit adduct list, full characterisation of the current code** (peptide ion types `p`/`n`; the
+list comes from the argument or from the annotation): the specification sum — charge term = Σ count·(m(ion) − q·mₑ) —
+**plus** `adductDefect` = Σ q·mₑ·(count − 1) over the stated non-electron ions (`PROTON_MASS − (m(H) − mₑ)` for the
+literal `+H+`).  The defect is the known finding KF-C02-adduct-electron-count; it vanishes when every count is 1
+(`adductDefect_counts_one`). -/
+theorem mass_eq_spec_adducts (env : Env) (a : Annotation) (o : Opts) (s : List Char)
+    (hr : resolveArgs a o = .ok ⟨effCharge a o, some (.str s), none⟩)
+    (hdom : inDomain env a o.ion o.mono (some (s.map Char.toNat)) = true) :
+    mass env a o = .ok (roundOpt (specMassT lib env a o.ion ((effCharge a o).getD 0) o.mono o.isotope o.loss
+        (some (s.map Char.toNat)) + adductDefect o.mono (s.map Char.toNat)) o.precision) :=
+  mass_eq_spec_adducts_of_tables residue_table_ok adjust_tables_ok avg_keys_ok env a o s hr hdom
+
+open Pept.Mass in
+/-- when every stated ion has count 1 (or is an electron) and the list is not the literal `+H+`, the defect is 0:
+then mass = specification sum exactly, i.e. "charging adds exactly the stated adduct ions" -/
+theorem adductDefect_counts_one (mono : Bool) (s : List Nat) (hs : s ≠ [43, 72, 43])
+    (h : ∀ x ∈ splitComma s, ∀ cnt sym q, parseIonElements x = .ok (cnt, sym, q) → sym = kE ∨ cnt = 1) :
+    adductDefect mono s = 0 := by
+  unfold adductDefect
+  simp only [hs, if_false]
+  have : ∀ l : List (List Nat), (∀ x ∈ l, adductDefectIon x = 0) → Spec.sumR (l.map adductDefectIon) = 0 := by
+    intro l
+    induction l with
+    | nil => intro _; rfl
+    | cons x l ih =>
+      intro hl
+      rw [List.map_cons, Spec.sumR_cons, hl x List.mem_cons_self, ih (fun y hy => hl y (List.mem_cons_of_mem _ hy))]
+      ring
+  apply this
+  intro x hx
+  unfold adductDefectIon
+  cases hp : parseIonElements x with
+  | error e => rfl
+  | ok r =>
+    obtain ⟨cnt, sym, q⟩ := r
+    rcases h x hx cnt sym q hp with he | hc
+    · simp [he]
+    · simp only [hc]
+      split <;> simp
+
+-- non-vacuity: PEPTIDE/2[+Na+,+K+] (annotation adducts) and an adduct argument on an uncharged peptide
+example : Mass.resolveArgs { seq := "PEPTIDE".toList, charge := some 2, adducts := some [⟨.str "+Na+,+K+".toList, 1⟩] } {}
+    = .ok ⟨some 2, some (.str "+Na+,+K+".toList), none⟩ := rfl
+example : inDomain ⟨fun _ => default, fun _ => .ok []⟩
+    { seq := "PEPTIDE".toList, charge := some 2, adducts := some [⟨.str "+Na+,+K+".toList, 1⟩] } Mass.ionP false
+    (some ("+Na+,+K+".toList.map Char.toNat)) = true := by decide +kernel
+
 end Pept.C02
